@@ -1,5 +1,7 @@
 (* C19 driver: F2-dimensions of the mapping cone of (1 + tau) on the cube complex; ordinary F2 tables for
-   the symmetric construction without the involutive part. *)
+   the symmetric construction without the involutive part.  The kinds cxh, ssi, khw (builder option h_range
+   against the unrestricted complex) and khm (manual builder schedules against the automatic one) are relations
+   between runs of the implementation; the model side answers REL. *)
 (*INCLUDE kh_common.ml*)
 let dims_str (ds : (nat * z) list) (shift : int) : string =
   String.concat " " (Stdlib.List.filter_map (fun (k, d) ->
